@@ -304,6 +304,33 @@ fn emit_fn(d: &FnDirective, srcs: &mut Sources, out: &mut Out, stats: &mut norm:
     let item_name = squash(&format!("{}::{}", d.container, d.name));
     let ind = "    ".repeat(indent);
     let ind1 = "    ".repeat(indent + 1);
+    // N19 (option `shadowmut`): `fn f(mut x: T) B`  ==>  `fn f(__p_x: T) { let mut x = __p_x; B }` — the parameter's initial
+    // value, which postconditions speak about, keeps a name that loop invariants can use
+    let (sig, block) = if d.opts.contains_key("shadowmut") && !d.opts.contains_key("ext") && !d.opts.contains_key("sig") {
+        let mut sig = sig;
+        let mut block = block;
+        let mut lets: Vec<syn::Stmt> = vec![];
+        for a in sig.inputs.iter_mut() {
+            if let syn::FnArg::Typed(pt) = a {
+                if let syn::Pat::Ident(pi) = &mut *pt.pat {
+                    if pi.mutability.is_some() {
+                        let name = pi.ident.clone();
+                        let pname = syn::Ident::new(&format!("__p_{}", name), proc_macro2::Span::call_site());
+                        pi.mutability = None;
+                        pi.ident = pname.clone();
+                        lets.push(syn::parse_quote!(let mut #name = #pname;));
+                        stats.bump("N19.mut_param_as_shadow_local");
+                    }
+                }
+            }
+        }
+        if let Some(b) = block.as_mut() {
+            for (k, l) in lets.into_iter().enumerate() {
+                b.stmts.insert(k, l);
+            }
+        }
+        (sig, block)
+    } else { (sig, block) };
 
     let bodyonly = d.opts.contains_key("bodyonly");
     let mode_sig = d.opts.contains_key("sig");
@@ -329,6 +356,10 @@ fn emit_fn(d: &FnDirective, srcs: &mut Sources, out: &mut Out, stats: &mut norm:
             out.push(&format!("{}{}", ind1, printer::pretty(wc, 0).trim_end()));
         }
         out.regions.push(Region { start, end: out.line, kind: "fn-sig".into(), item: item_name.clone(), clause: String::new(), props: d.body_props.clone() });
+        if let Some(al) = d.opts.get("also") {
+            // properties a failed TRAIT-level clause additionally carries at this implementation (line 0: never matched by a span)
+            out.regions.push(Region { start: 0, end: 0, kind: "also".into(), item: item_name.clone(), clause: String::new(), props: al.split(',').map(|x| x.to_string()).collect() });
+        }
         for (text, id, props) in &d.clauses {
             let s = out.cur();
             out.push(text);
